@@ -21,60 +21,82 @@ class TickerModel:
             r = f.origin_local(0)
             if f.rec.get("ret") == "usize" and r[0] == "binop" and r[1] == "Rem" and f.argc >= 1 and short in f.locals[1]["ty"]:
                 self.shard_fns.add(name)
-        for name, f in F.fns.items():
-            for bb, t in f.calls():
-                c = t["callee"]
-                if not c.startswith("hashbrown::HashMap::<K, V, S, A>::"):
-                    continue
-                if "std::time::SystemTime" not in " ".join(t.get("gargs", [])[:2]):
-                    continue
-                kind = c.split("::")[-1]
-                recv = f.op_origin(t["args"][0])
-                locks = [x for x in root_calls(recv) if lock_call({"rpath": x[1], "gargs": ["", "hashbrown::HashMap<u64, std::time::SystemTime"]})]
-                shard_arg = None
-                whole = False
-                if locks and locks[0][2]:
-                    tgt = locks[0][2][0]
-                    if tgt[0] == "index":
-                        idx = tgt[2]
-                        if idx[0] == "call" and idx[1] in self.shard_fns:
-                            shard_arg = idx[2][1]
-                    elif tgt[0] == "param":
-                        whole = True     # iterating all shards (clear)
-                args = [f.op_origin(a) for a in t["args"][1:]]
-                self.ops.append({"fn": f, "bb": bb, "kind": kind, "shard_arg": shard_arg, "args": args, "term": t, "whole": whole})
-        # effective operations: a ticker function that delegates to other ticker functions performs their
-        # operations, with its own arguments substituted (so `update = delete(old); put(new)` is seen as remove+insert)
-        from core import subst_params
-        direct = list(self.ops)
-        by_fn = {}
-        for o in direct:
-            by_fn.setdefault(o["fn"].name, []).append(o)
-        for _ in range(3):
-            added = False
-            for name, f in F.fns.items():
-                if f.kind == "Closure":
-                    continue
-                for bb, t in f.calls():
-                    g = t.get("rpath")
-                    if g in by_fn and g != name and t["res"] == "item":
-                        args = [f.op_origin(a) for a in t["args"]]
-                        for o in by_fn[g]:
-                            if o["whole"]:
-                                continue
-                            eo = {"fn": f, "bb": bb, "kind": o["kind"], "whole": False, "term": t, "via": g,
-                                  "shard_arg": subst_params(o["shard_arg"], args) if o["shard_arg"] is not None else None,
-                                  "args": [subst_params(a, args) for a in o["args"]]}
-                            key = (name, bb, o["kind"], repr(eo["shard_arg"]))
-                            if key not in {(x["fn"].name, x["bb"], x["kind"], repr(x["shard_arg"])) for x in by_fn.get(name, [])}:
-                                # only for functions of the ticker type itself (callers outside are clients)
-                                if f.argc >= 1 and short in f.locals[1]["ty"]:
-                                    by_fn.setdefault(name, []).append(eo)
-                                    added = True
-            if not added:
-                break
-        self.ops = [o for os_ in by_fn.values() for o in os_]
+        # Operations are read off path-sensitive paths (sym.py) of the ticker's *entry points*: its functions called from
+        # outside the type, and the thread closures it spawns.  Private helpers, closures and generic
+        # `with_locked_shard(t, |shard| ..)` wrappers are inlined, so an operation is always seen with the shard
+        # expression in the entry point's own terms, and `update = delete(old); put(new)` is seen as remove + insert.
+        from sym import ipaths
+        spawn = F.spawn_closures()
+
+        def of_ticker(g):
+            return g.kind != "Closure" and g.argc >= 1 and short in g.locals[1]["ty"]
+        tick_fns = [g for n_, g in F.fns.items() if of_ticker(g)]
+        roots = []
+        for g in tick_fns:
+            callers = [h for h in F.fns.values() for b_, t_ in h.calls() if t_.get("rpath") == g.name and t_["res"] == "item"]
+            outside = [h for h in callers if not (of_ticker(h) or (h.kind == "Closure" and any(h.name.startswith(x.name + "::") for x in tick_fns)))]
+            if outside or not callers:
+                roots.append(g)
+        for cdef, parent in spawn.items():
+            pf = F.fn(parent)
+            if pf is not None and of_ticker(pf) and F.fn(cdef) is not None:
+                roots.append(F.fn(cdef))
+        self.roots = roots
+        self.root_paths = {}
+        for root in roots:
+            paths = ipaths(F, root, stop=lambda n_: n_ in self.shard_fns, depth=3)
+            seqs = []
+            seen = set()
+            for p_ in paths:
+                seq = []
+                for e in p_.events:
+                    c = e.generic
+                    if not c.startswith("hashbrown::HashMap::<K, V, S, A>::") or "std::time::SystemTime" not in " ".join((e.t.get("gargs") or [])[:2]):
+                        continue
+                    kind = c.split("::")[-1]
+                    recv = e.args[0]
+                    locks = [x for x in root_calls(recv) if lock_call({"rpath": x[1], "gargs": ["", "hashbrown::HashMap<u64, std::time::SystemTime"]})]
+                    shard_arg = None
+                    whole = False
+                    if locks and locks[0][2]:
+                        tgt = locks[0][2][0]
+                        if tgt[0] == "index":
+                            idx = tgt[2]
+                            if idx[0] == "call" and idx[1] in self.shard_fns:
+                                shard_arg = idx[2][1]
+                        elif tgt[0] == "param":
+                            whole = True
+                    o = {"fn": root, "bb": e.bb, "site_fn": e.fn, "kind": kind, "shard_arg": shard_arg, "args": list(e.args[1:]), "term": e.t, "whole": whole, "seq": e.seq}
+                    seq.append(o)
+                    key = (e.fn.name, e.bb, kind, repr(strip_site(shard_arg)) if shard_arg is not None else None)
+                    if key not in seen:
+                        seen.add(key)
+                        self.ops.append(o)
+                seqs.append(seq)
+            self.root_paths[root.name] = seqs
         self.register_fns = {o["fn"].name for o in self.ops if o["kind"] == "insert"}
         self.unregister_fns = {o["fn"].name for o in self.ops if o["kind"] == "remove"} - self.register_fns
         self.move_fns = {o["fn"].name for o in self.ops if o["kind"] == "remove"} & self.register_fns
         self.register_only = self.register_fns - self.move_fns
+
+    def move_check(self, name):
+        """(ok, why) for a function that moves an index entry: on every path it first removes the id from the shard of one
+        expiry and then inserts it under the shard of another, same id, own expiry"""
+        seqs = self.root_paths.get(name) or []
+        if not seqs:
+            return False, "no path"
+        for seq in seqs:
+            ops = [o for o in seq if o["kind"] in ("insert", "remove")]
+            if [o["kind"] for o in ops] != ["remove", "insert"]:
+                return False, "a path performs %s instead of remove then insert" % [o["kind"] for o in ops]
+            rem, ins = ops
+            if rem["shard_arg"] is None or ins["shard_arg"] is None:
+                return False, "shard not derived from an expiry"
+            if strip_site(rem["shard_arg"]) == strip_site(ins["shard_arg"]):
+                return False, "removes from and inserts into the shard of the same expiry"
+            from core import same_value
+            if not same_value(rem["args"][0], ins["args"][0]):
+                return False, "removes one id and inserts another"
+            if len(ins["args"]) < 2 or strip_site(ins["args"][1]) != strip_site(ins["shard_arg"]):
+                return False, "the new entry is not stored under the shard of its own expiry"
+        return True, "%d path(s)" % len(seqs)
